@@ -407,8 +407,8 @@ def exhaustive_jobs(seed, tier):
         split('imo', 10 ** 6, 1, 16)
         split('issn', 10 ** 7, 1, 64)
         split('ean8', 10 ** 7, 1, 64)
-        split('isbn10', 10 ** 9, 1009, 32)
-        split('sbn', 10 ** 8, 101, 16)
+        split('isbn10', 10 ** 9, 2003, 32)
+        split('sbn', 10 ** 8, 211, 16)
     return jobs
 
 
